@@ -134,7 +134,7 @@ PLAN = {
     "C06": _qplan("suspend/resume/activate scripts from 1-3 threads on one queue (racing pairs at inline depth 0/62/63, suspend from an item or a barrier item, blocked dispatch_sync, "
                   "initially-inactive queues) plus sequential nesting histories of depth 1..130 and walks across the side-counter boundaries",
                   "k<=3 for the sequential histories, k<=2 for the scripts (k<=1 on concurrent queues)", "k<=4 / k<=3 / k<=2"),
-    "C07": _qplan("enter/leave/group_async/notify/wait(forever, 1 ms, now) programs on one group from 1-3 threads incl. regeneration; timeouts race through 'deadline elapses first' choices",
+    "C07": _qplan("enter/leave/group_async/notify/wait(forever, 1 ms, now) programs on one group (and a member starting work in a second group) from 1-3 threads incl. regeneration; timeouts race through 'deadline elapses first' choices",
                   "k<=3 without queues, k<=2 with notify/group_async from 2 threads, k<=1 for 3-thread and global-queue programs", "k<=4 / k<=2 / k<=2 / k<=1"),
     "C08": _qplan("all wait(forever/1 ms/now)/signal programs of 2 threads x <=2 ops and 3 threads x 1 op on a semaphore of value 0 or 1 (232 programs; thorough adds 982 three-thread programs), final drain",
                   "k<=3 deviations (preemptions + timeout-first choices) for all 232 programs", "k<=4 for the 232 programs, k<=3 for the 982 three-thread programs"),
@@ -290,7 +290,7 @@ def _tasks_for(pid, tier):
         glob = [36] if q else [36, 37]
         # 47-51: a notify registered after re-entry while the previous generation is being woken (known finding F17 lives here;
         # 50/51 make the re-entering thread block so that one preemption suffices)
-        renotify = ds("group", 1, [49, 50, 51], jobs=6) + ds("group", 1 if q else 2, [47, 48], jobs=6) + ds("group", 1 if q else 2, [52, 53], jobs=6)   # 52/53: blocked re-entering thread, new-generation waiter
+        renotify = ds("group", 1, [49, 50, 51], jobs=6) + ds("group", 1 if q else 2, [47, 48], jobs=6) + ds("group", 1 if q else 2, [52, 53, 54, 55, 56, 57], jobs=6)   # 54-57: a member starting work in a second group; 52/53: blocked re-entering thread, new-generation waiter
         if not q:
             renotify += ds("group", 2, [50, 51], jobs=8)
         return (renotify + ds("group", 3 if q else 4, pure, jobs=2) + ds("group", 2, two_q, jobs=6) +
